@@ -958,7 +958,7 @@ impl Check for C06 {
     fn assumptions(&self) -> Vec<String> {
         vec![
             "numbers are kept within 10^12 with at most 6 decimals so that no product leaves the representable decimal range (the statement's proviso)".into(),
-            "a hang is a single case exceeding 10 CPU-seconds (SIGPROF) in a worker, or 10 CPU-seconds (RLIMIT_CPU) in a CLI run, on inputs <= 64 KiB that normally take < 50 ms".into(),
+            "a hang is a single case exceeding 20 CPU-seconds (SIGPROF) in a worker, or a run of the binary exceeding 10 CPU-seconds (RLIMIT_CPU); inputs are <= 64 KiB and normally take < 50 ms, the large-input family (several MB) normally takes < 1 s".into(),
             "the harness and CLI flavour A are built with overflow checks and debug assertions; flavour B (plain release) is sampled in the thorough tier".into(),
         ]
     }
